@@ -61,6 +61,14 @@ def run_fill_port(chk: Check, cases: list[dict], name="fill_markdown (Marko pars
         if model != impl:
             nd += 1
             c["_diff"] = True
+            if nd <= 5:
+                try:
+                    import os
+                    os.makedirs("/verif/.work", exist_ok=True)
+                    prev = json.load(open("/verif/.work/last_fill_diffs.json")) if nd > 1 and os.path.exists("/verif/.work/last_fill_diffs.json") else []
+                    json.dump(prev + [{"doc": c["doc"], "opts": c["opts"]}], open("/verif/.work/last_fill_diffs.json", "w"))
+                except Exception:
+                    pass
             if nd <= 3:
                 chk.notes.append("fill_markdown differs: " + json.dumps({"doc": c["doc"][:300], "opts": c["opts"]}, ensure_ascii=False) +
                                  f" model={model[:200]!r} impl={impl[:200]!r}")
